@@ -98,7 +98,7 @@ def resolve (s : Schema) (rel : Option String) (name : String) : Option Nat :=
   | none =>
     match findIdx (fun f => f.qname == name) s with
     | some i => some i
-    | none => findIdx (fun f => f.qname.endsWith ("." ++ name) || f.qname == name) s
+    | none => findIdx (fun f => ("." ++ name).toList.isSuffixOf f.qname.toList || f.qname == name) s
 
 /-! ### schemas -/
 
